@@ -59,8 +59,10 @@ type Ctx struct {
 	boxedVars  map[types.Object]bool
 	locks      []string
 	wfDone     map[string]bool
+	ghostSorts map[string]string
 	sealed     map[string][]int
 	declLog    []string
+	persist    map[string]bool // constants that survive the rollback of a dry pass (captured inputs)
 	dry        bool // dry run (loop pre-pass that only registers heap sorts): obligations are dropped
 	lazyAxioms []string // stated only in queries that mention one of their function symbols
 	pcParent   map[string]string
@@ -598,7 +600,7 @@ func (o *Oblig) query(withModel, qf bool) string {
 }
 
 // ghost events: one constructor, discriminated by ev_kind
-var evKinds = map[string]int{"Send": 1, "Recv": 2, "Close": 3, "Trace": 4, "Spawn": 5, "Lock": 6, "Unlock": 7, "WgAdd": 8, "WgDone": 9, "WgWait": 10, "Call": 11, "Other": 12}
+var evKinds = map[string]int{"Send": 1, "Recv": 2, "Close": 3, "Trace": 4, "Spawn": 5, "Lock": 6, "Unlock": 7, "WgAdd": 8, "WgDone": 9, "WgWait": 10, "Call": 11, "Other": 12, "FnCall": 13}
 
 const nilIface = "(mkIface 0 0)"
 
@@ -644,7 +646,7 @@ func (c *Ctx) mark() ctxMark { return ctxMark{len(c.decls), len(c.asserts), len(
 func (c *Ctx) rollback(m ctxMark) {
 	var keepKeys []string
 	for _, k := range c.declLog[m.declLog:] {
-		if strings.HasPrefix(k, "sort:") {
+		if strings.HasPrefix(k, "sort:") || c.persist[k] {
 			keepKeys = append(keepKeys, k) // datatype declarations stay: registered heap sorts mention them
 			continue
 		}
@@ -655,6 +657,12 @@ func (c *Ctx) rollback(m ctxMark) {
 	for _, d := range c.decls[m.decls:] {
 		if strings.HasPrefix(d, "(declare-datatypes") || strings.HasPrefix(d, "(declare-sort") {
 			keepDecls = append(keepDecls, d)
+			continue
+		}
+		if strings.HasPrefix(d, "(declare-const ") {
+			if f := strings.Fields(d); len(f) > 1 && c.persist[f[1]] {
+				keepDecls = append(keepDecls, d)
+			}
 		}
 	}
 	c.decls = append(c.decls[:m.decls], keepDecls...)
